@@ -65,6 +65,32 @@ func restoreIndex(rootGoitPath, path string, index *store.Index, tree *object.Tr
 	return nil
 }
 
+// paths beneath dirName known to the index or to the tree (empty if dirName is not a directory in either)
+func getPathsByDirectory(dirName string, index *store.Index, tree *object.Tree) []string {
+	var paths []string
+	isAdded := make(map[string]bool)
+	if index.IsRegisteredAsDirectory(dirName) {
+		for _, entry := range index.GetEntriesByDirectory(dirName) {
+			paths = append(paths, string(entry.Path))
+			isAdded[string(entry.Path)] = true
+		}
+	}
+	if tree != nil {
+		if node, isNodeFound := object.GetNode(tree.Children, dirName); isNodeFound && len(node.Children) > 0 {
+			parentDir := filepath.Dir(dirName)
+			for _, path := range node.GetPaths() {
+				if parentDir != "." {
+					path = fmt.Sprintf("%s/%s", strings.ReplaceAll(parentDir, `\`, "/"), path)
+				}
+				if !isAdded[path] {
+					paths = append(paths, path)
+				}
+			}
+		}
+	}
+	return paths
+}
+
 func restoreWorkingDirectory(rootGoitPath, path string, index *store.Index) error {
 	_, entry, isEntryFound := index.GetEntry([]byte(path))
 	if !isEntryFound {
@@ -148,6 +174,16 @@ var restoreCmd = &cobra.Command{
 			}
 
 			for _, arg := range args {
+				// a directory is restored path by path, taking the paths from the index and HEAD (not from the working tree)
+				if dirPaths := getPathsByDirectory(strings.ReplaceAll(filepath.Clean(arg), `\`, "/"), client.Idx, tree); len(dirPaths) > 0 {
+					for _, dirPath := range dirPaths {
+						if err := restoreIndex(client.RootGoitPath, dirPath, client.Idx, tree); err != nil {
+							return err
+						}
+					}
+					continue
+				}
+
 				argAbsPath, err := filepath.Abs(arg)
 				if err != nil {
 					return fmt.Errorf("fail to get arg abs path: %w", err)
@@ -214,6 +250,16 @@ var restoreCmd = &cobra.Command{
 		} else {
 			// execute restore working directory
 			for _, arg := range args {
+				// a directory is restored entry by entry, taking the entries from the index (not from the working tree)
+				if dirPaths := getPathsByDirectory(strings.ReplaceAll(filepath.Clean(arg), `\`, "/"), client.Idx, nil); len(dirPaths) > 0 {
+					for _, dirPath := range dirPaths {
+						if err := restoreWorkingDirectory(client.RootGoitPath, dirPath, client.Idx); err != nil {
+							return err
+						}
+					}
+					continue
+				}
+
 				argAbsPath, err := filepath.Abs(arg)
 				if err != nil {
 					return fmt.Errorf("fail to get arg abs path: %w", err)
